@@ -1662,3 +1662,166 @@ def m_split_term_into(e, st, a, ctx): return a[0]
 def m_is_char_boundary(e, st, a, ctx):
     sv = as_str(e, st, a[0]); b = a[1]; off = byte_offsets(sv)
     return simp(zor(*[zand(zeq(off[i], b), i <= sv.len) for i in range(len(sv.ch) + 1)]))
+
+
+# ------------------------------------------------------------------ paths (lexical, concrete strings only)
+def _cpath(e, st, x, what):
+    s = str_concrete(as_str(e, st, x))
+    if s is None: raise Abort('%s on a symbolic path' % what)
+    return s
+
+
+@model(r'std::path::PathBuf::from::<.*>', r'<std::path::PathBuf as std::convert::From<.*>>::from', r'std::path::Path::new::<.*>', r'std::path::Path::to_path_buf',
+       r'<std::path::PathBuf as std::ops::Deref>::deref', r'std::path::PathBuf::as_path', r'<std::path::Path as std::convert::AsRef<std::path::Path>>::as_ref')
+def m_path_identity(e, st, a, ctx): return as_str(e, st, a[0])
+
+
+@model(r'std::path::Path::parent')
+def m_path_parent(e, st, a, ctx):
+    p = _cpath(e, st, a[0], 'parent')
+    q = p.rstrip('/')
+    if q == '' : return none()
+    if '/' not in q: return some(mk_str('')) if not p.startswith('/') else none()
+    par = q.rsplit('/', 1)[0]
+    return some(mk_str(par if par else '/'))
+
+
+@model(r'std::path::PathBuf::push::<.*>')
+def m_path_push(e, st, a, ctx):
+    base = _cpath(e, st, a[0], 'push'); comp = _cpath(e, st, a[1], 'push')
+    if comp.startswith('/'): r = comp
+    elif base == '' or base.endswith('/'): r = base + comp
+    else: r = base + '/' + comp
+    e.store(st, a[0], mk_str(r)); return UNIT
+
+
+@model(r'std::path::Path::to_string_lossy')
+def m_path_to_string_lossy(e, st, a, ctx): return as_str(e, st, a[0])
+
+
+@model(r'std::path::PathBuf::pop')
+def m_path_pop(e, st, a, ctx):
+    p = _cpath(e, st, a[0], 'pop'); q = p.rstrip('/')
+    if q == '' or '/' not in q:
+        e.store(st, a[0], mk_str('' if not p.startswith('/') else '/')); return q != ''
+    e.store(st, a[0], mk_str(q.rsplit('/', 1)[0] or '/')); return True
+
+
+@model(r'std::path::Path::join::<.*>')
+def m_path_join(e, st, a, ctx):
+    base = _cpath(e, st, a[0], 'join'); comp = _cpath(e, st, a[1], 'join')
+    if comp.startswith('/'): return mk_str(comp)
+    return mk_str(base + comp if (base == '' or base.endswith('/')) else base + '/' + comp)
+
+
+# ------------------------------------------------------------------ more Option / Result combinators
+MODELS[:] = [(p, f) for (p, f) in MODELS if f.__name__ not in ('m_opt_unsupported', 'm_unwrap_or_default')]
+
+
+@model(r'std::option::Option::<.*>::or')
+def m_opt_or(e, st, a, ctx):
+    o = as_enum(e, st, a[0]); b = as_enum(e, st, a[1])
+    return merge(simp(zeq(o.d, 1)), o, b)
+
+
+@model(r'std::option::Option::<.*>::and::<.*>')
+def m_opt_and(e, st, a, ctx):
+    o = as_enum(e, st, a[0]); b = as_enum(e, st, a[1])
+    return merge(simp(zeq(o.d, 1)), b, none())
+
+
+@model(r'std::option::Option::<.*>::or_else::<.*>')
+def m_opt_or_else(e, st, a, ctx):
+    o = as_enum(e, st, a[0])
+    return cond_apply(e, st, simp(zeq(o.d, 0)), a[1], [], o)
+
+
+@model(r'std::option::Option::<.*>::and_then::<.*>')
+def m_opt_and_then(e, st, a, ctx):
+    o = as_enum(e, st, a[0])
+    if 1 not in o.p: return none()
+    return cond_apply(e, st, simp(zeq(o.d, 1)), a[1], [o.p[1][0]], none())
+
+
+@model(r'std::option::Option::<.*>::map_or::<.*>')
+def m_opt_map_or(e, st, a, ctx):
+    o = as_enum(e, st, a[0])
+    if 1 not in o.p: return a[1]
+    return cond_apply(e, st, simp(zeq(o.d, 1)), a[2], [o.p[1][0]], a[1])
+
+
+@model(r'std::option::Option::<.*>::is_some_and::<.*>')
+def m_opt_is_some_and(e, st, a, ctx):
+    o = as_enum(e, st, a[0])
+    if 1 not in o.p: return False
+    return cond_apply(e, st, simp(zeq(o.d, 1)), a[1], [o.p[1][0]], False)
+
+
+@model(r'std::option::Option::<.*>::ok_or_else::<.*>')
+def m_ok_or_else(e, st, a, ctx):
+    o = as_enum(e, st, a[0])
+    ev = cond_apply(e, st, simp(zeq(o.d, 0)), a[1], [], POISON)
+    return E(RESULT, zite(zeq(o.d, 1), 0, 1), {0: list(o.p.get(1, [POISON])), 1: [ev]})
+
+
+@model(r'std::option::Option::<.*>::unwrap_or_default')
+def m_unwrap_or_default2(e, st, a, ctx):
+    o = as_enum(e, st, a[0])
+    ty = re.search(r'Option::<(.*)>::unwrap_or_default', ctx[0]).group(1)
+    d = S(0, []) if ty.startswith('std::string::String') else V(0, []) if ty.startswith('std::vec::Vec') else False if ty == 'bool' else 0 if ty in INT_TYPES else None
+    if d is None: raise Abort('unwrap_or_default of ' + ty)
+    return merge(simp(zeq(o.d, 1)), o.p[1][0], d) if 1 in o.p else d
+
+
+@model(r'std::result::Result::<.*>::unwrap_or')
+def m_res_unwrap_or(e, st, a, ctx):
+    o = as_enum(e, st, a[0])
+    return merge(simp(zeq(o.d, 0)), o.p[0][0], a[1]) if 0 in o.p else a[1]
+
+
+@model(r'std::result::Result::<.*>::unwrap_or_else::<.*>')
+def m_res_unwrap_or_else(e, st, a, ctx):
+    o = as_enum(e, st, a[0])
+    return cond_apply(e, st, simp(zeq(o.d, 1)), a[1], [o.p[1][0]] if 1 in o.p else [POISON], o.p[0][0] if 0 in o.p else POISON)
+
+
+@model(r'std::result::Result::<.*>::map::<.*>')
+def m_res_map(e, st, a, ctx):
+    o = as_enum(e, st, a[0])
+    if 0 not in o.p: return o
+    v = cond_apply(e, st, simp(zeq(o.d, 0)), a[1], [o.p[0][0]], POISON)
+    p = dict(o.p); p[0] = [v]
+    return E(RESULT, o.d, p)
+
+
+@model(r'std::result::Result::<.*>::and_then::<.*>')
+def m_res_and_then(e, st, a, ctx):
+    o = as_enum(e, st, a[0])
+    if 0 not in o.p: return o
+    return cond_apply(e, st, simp(zeq(o.d, 0)), a[1], [o.p[0][0]], E(RESULT, 1, {1: list(o.p.get(1, [POISON]))}))
+
+
+@model(r'std::result::Result::<.*>::err')
+def m_res_err(e, st, a, ctx):
+    o = as_enum(e, st, a[0])
+    return E(OPTION, zite(zeq(o.d, 1), 1, 0), {0: [], 1: list(o.p.get(1, [POISON]))})
+
+
+@model(r'std::option::Option::<.*>::filter::<.*>')
+def m_opt_filter(e, st, a, ctx):
+    o = as_enum(e, st, a[0])
+    if 1 not in o.p: return none()
+    keep = cond_apply(e, st, simp(zeq(o.d, 1)), a[1], [PV(o.p[1][0])], False)
+    return E(OPTION, zite(zand(zeq(o.d, 1), keep), 1, 0), {0: [], 1: list(o.p[1])})
+
+
+@model(r'std::option::Option::<.*>::replace', r'std::option::Option::<.*>::insert')
+def m_opt_replace(e, st, a, ctx):
+    o = as_enum(e, st, a[0]); e.store(st, a[0], some(a[1]))
+    return o if ctx[0].endswith('replace') else P(a[0].fid, a[0].loc, a[0].proj + (('v', 1), ('f', 0)))
+
+
+@model(r'core::slice::<impl \[.*\]>::first', r'std::vec::Vec::<.*>::first')
+def m_first(e, st, a, ctx):
+    v = as_vec(e, st, a[0])
+    return opt(simp(v.len > 0), PV(v.it[0] if v.it else POISON))
